@@ -72,7 +72,33 @@ MUTANTS = [
         "                    res.requirement_constraint_evaluation_result.requirement_is_conditional = True\n"
         "                return res\n",
     },
+    {
+        "name": "c12-validity-setter-called-outside-the-evaluating-task",
+        "property": "C12",
+        "file": "content_evaluation/__init__.py",
+        "old": "        async def evaluate_with_cer(cer: ContentEvaluationResult):\n"
+        "            content_evaluation_result_setter(cer)\n            try:\n",
+        "new": "        content_evaluation_result_setter(content_evaluation_result)\n\n"
+        "        async def evaluate_with_cer(cer: ContentEvaluationResult):\n            try:\n",
+    },
     # ------------------------------------------------------------------------------------------------ C10
+    {
+        "name": "c10-module-level-cache-of-resolved-packages",
+        "property": "C10",
+        "file": "expressions/expression_resolver.py",
+        "old": "        resolved_package = await resolver.get_condition_expression(package_key_token.value)\n",
+        "new": "        if package_key_token.value in _PACKAGE_CACHE:\n"
+        "            resolved_package = _PACKAGE_CACHE[package_key_token.value]\n"
+        "        else:\n"
+        "            resolved_package = await resolver.get_condition_expression(package_key_token.value)\n"
+        "            _PACKAGE_CACHE[package_key_token.value] = resolved_package\n",
+        "also": [
+            {
+                "old": "async def parse_expression_including_unresolved_subexpressions(\n",
+                "new": "_PACKAGE_CACHE = {}\n\n\nasync def parse_expression_including_unresolved_subexpressions(\n",
+            }
+        ],
+    },
     {
         "name": "c10-placeholders-written-back-in-completion-order",
         "property": "C10",
@@ -228,6 +254,26 @@ MUTANTS = [
                 "new": "    try:\n        evaluation_result = await evaluate_ahb_expression_tree(expression_tree)\n"
                 "    except InvalidExpressionError as invalid_expr_error:\n        validation_logger.warning(\n"
                 "            \"The expression '%s' @ '%s' is invalid. Returning IS_OPTIONAL\",",
+            }
+        ],
+    },
+    {
+        "name": "c15-format-constraint-results-cached-per-expression",
+        "property": "C15",
+        "file": "expressions/format_constraint_expression_evaluation.py",
+        "old": "    error_message: Optional[str] = None\n    format_constraints_fulfilled: bool\n"
+        "    if not format_constraints_expression:\n",
+        "new": "    error_message: Optional[str] = None\n    format_constraints_fulfilled: bool\n"
+        "    if format_constraints_expression in _RESULTS:\n        return _RESULTS[format_constraints_expression]\n"
+        "    if not format_constraints_expression:\n",
+        "also": [
+            {
+                "old": "    return FormatConstraintEvaluationResult(\n"
+                "        format_constraints_fulfilled=format_constraints_fulfilled, error_message=error_message\n"
+                "    )\n\n\n@inject.params",
+                "new": "    _RESULTS[format_constraints_expression] = FormatConstraintEvaluationResult(\n"
+                "        format_constraints_fulfilled=format_constraints_fulfilled, error_message=error_message\n"
+                "    )\n    return _RESULTS[format_constraints_expression]\n\n\n_RESULTS = {}\n\n\n@inject.params",
             }
         ],
     },
